@@ -127,11 +127,11 @@ def run(ck):
                             what='collinear quadratic %r: length() = %r, exact %r' % (seg, got, exp), case={'P': P, 'd': str(d)}, expected=exp, observed=repr(got), driver='wide-quadratics')
                 break
     ck.sample('wide-quadratic', {'P': [-4, 6, -9], 'length': 13})
-    old = sppath._quad_available
+    old = getattr(sppath, '_quad_available', None)     # (the module's scipy switch; None: no such switch any more - one configuration only)
     try:
         for cfg, n in (('scipy', 160 if quick else 1100), ('no-scipy', 25 if quick else 200)):
             sppath._quad_available = (cfg == 'scipy') and old
-            if cfg == 'scipy' and not old:
+            if cfg == 'scipy' and old is False:
                 continue
             for i, c in enumerate(cases[:n]):
                 collinear_case(ck, c, 1.0, 0j, cfg)
@@ -267,8 +267,8 @@ def run(ck):
             # a discontinuous path of lines only (pen-up jumps are not part of the length)
             dp = sp.parse_path('M0,0 L4,0 L4,3 M10,10 L13,14 L13,20 M-5,-5 L-5,-6')
             ck.case(fp=('path-discontinuous', cfg), nontrivial=True)
-            if not (abs(dp.length() - 19.0) <= 1e-12) or not (abs(sum(dp._lengths) - 1) <= 1e-12):
-                ck.disagree(key='Path.length/not-the-sum/discontinuous', site='svgpathtools/path.py:Path._calc_lengths',
+            if not (abs(dp.length() - 19.0) <= 1e-12) or not (abs(dp.length(0, 0.5) + dp.length(0.5, 1) - 19.0) <= 1e-9):
+                ck.disagree(key='Path.length/not-the-sum/discontinuous', site='svgpathtools/path.py:Path.length',
                             what='[%s] %r: length() = %r, the segments add up to 19' % (cfg, dp, dp.length()), case={'cfg': cfg}, expected=19.0, observed=dp.length(), driver='path')
             # elliptical arcs (lattice, and nearly circular ones) against an independent Gauss-Legendre quadrature of the speed along the stored ellipse
             ell = [{'r': [5, 3], 'phi': 2, 'th': 1, 'dl': 7, 'c': [3, -2]}, {'r': [13, 5], 'phi': 0, 'th': -5, 'dl': -17, 'c': [0, 0]}, {'r': [2, 7], 'phi': 5, 'th': 9, 'dl': 23, 'c': [1, 1]}]
